@@ -66,8 +66,8 @@ package store
 
 //@ func (*Store).validateAndRecoverODSQ4
 //@   property C07
-//@   requires s != nil
-//@   havoc $CacheDropped $LinkGone $Complete
+//@   requires s != nil && !$FdOpen
+//@   havoc $CacheDropped $LinkGone $Complete $FdOpen
 //@   ensures err == nil ==> $Complete
 
 //@ func (*Store).validateAndRecoverODS
@@ -79,14 +79,14 @@ package store
 //@ func (*Store).createODSQ4File
 //@   property C07
 //@   noframe
-//@   requires s != nil && !$Complete
+//@   requires s != nil && !$Complete && !$FdOpen
 //@   callpre Store).linkHeight: $Complete
 //@   ensures err == nil ==> $Complete
 
 //@ func (*Store).createODSFile
 //@   property C07
 //@   noframe
-//@   requires s != nil && !$Complete
+//@   requires s != nil && !$Complete && !$FdOpen
 //@   callpre Store).linkHeight: $Complete
 //@   ensures err == nil ==> $Complete
 
